@@ -6,6 +6,8 @@
       from outside on an instance — and (ii) is read on an observation path (forward,
       get_cost, get_modified_vars, summary, export, sampling) is state outside the
       state_dict, unless every forward recomputes it before reading it.
+ R17d per-tensor training flags (requires_grad, grad) are not saved: no observation path reads
+      them.
  R17b stable key set: no register_buffer / register_parameter / add_module / nn.Parameter
       assignment is reachable from forward, get_cost, get_modified_vars or summary (the key
       set of the state_dict is fixed at conversion time); buffer names are per instance.
@@ -255,6 +257,53 @@ def r17b(ctx, repo: Repo, classes: List[ClassInfo], label: str = '') -> int:
     return hits
 
 
+TENSOR_FLAGS = ('requires_grad', 'grad', 'grad_fn')
+
+
+def r17d(ctx, repo: Repo, classes: List[ClassInfo]):
+    """Per-tensor training flags are state outside the state_dict: ``requires_grad`` (switched by
+    train_net_only / train_nas_only and by the train_* setters) and the accumulated ``grad`` are
+    not saved, and a freshly constructed wrapper has the constructor's flags.  No observation
+    path (forward, cost, summary, export, sampling; property getters included) may read them:
+    a mask or a cost that depends on whether a parameter is currently trainable differs between
+    the checkpointed model and the restored one."""
+    E = Effects(repo)
+    entry: List[Tuple[str, FunctionInfo]] = []
+    for ci in classes:
+        for m in OBS_METHODS:
+            f = ci.methods.get(m)
+            if f is not None:
+                entry.append((f'{ci.name}.{m}', f))
+    from .c18 import observers
+    for w, f in observers(ctx):
+        entry.append((f'{w.name}.{f.name}', f))
+    cache: Dict[str, List[Tuple[FunctionInfo, str]]] = {}
+
+    def flag_reads(g: FunctionInfo):
+        k = g.qualname + ('#s' if g.kind == 'setter' else '')
+        if k not in cache:
+            rd = E.attrs_read([g]) if g.kind != 'setter' else set()
+            cache[k] = [(g, a) for a in TENSOR_FLAGS if a in rd]
+        return cache[k]
+    n = 0
+    for lbl, f in entry:
+        n += 1
+        # attribute names resolve class-family wide: a layer only contains layers of its own
+        # method (plinio.methods.<method>), the DNAS base class any of them
+        fam = '.'.join(f.module.name.split('.')[:3])
+        bad = [x for g in E.reachable(f).values() for x in flag_reads(g)
+               if fam == 'plinio.methods.dnas_base' or g.module.name.startswith(fam) or
+               not g.module.name.startswith('plinio.methods')]
+        ctx.ob('R17d', f'{lbl} does not depend on training flags', not bad,
+               'no requires_grad / grad read on the observation path' if not bad else
+               f'{bad[0][0].qualname.split("plinio.")[-1]} reads .{bad[0][1]} and is reached from '
+               f'{lbl}: the flag is not part of the state_dict (train_net_only / train_nas_only '
+               f'and the train_* setters change it), so the restored model, built with the '
+               f'constructor\'s flags, is observed differently from the checkpointed one',
+               where(bad[0][0]) if bad else where(f))
+    ctx.floor('R17d', 'observation entry points', n, 60)
+
+
 def run(ctx):
     # the sampler flags live outside the state_dict (known findings below); a wrapper rebuilt
     # with the same constructor arguments matches the checkpointed one only as long as nothing
@@ -267,6 +316,7 @@ def run(ctx):
     n = r17a(ctx, repo, classes)
     ctx.floor('R17a', 'mutable observed plain attributes', n, 5)
     r17b(ctx, repo, classes)
+    r17d(ctx, repo, classes)
     # positive control for the zero-count rule R17b
     fx_root = Path(__file__).resolve().parent.parent.parent / 'selftest' / 'fixtures' / 'c17'
     if not (fx_root / 'plinio').is_dir():
